@@ -7,6 +7,7 @@ mod drv;
 mod engine;
 mod hfam;
 mod inputs;
+mod machine;
 mod mem;
 mod optree;
 mod refs;
@@ -105,6 +106,7 @@ fn main() {
         "dbgsched" => debug_sched(args[2].parse().unwrap(), &args[3], args[4].parse().unwrap(), args[5].parse().unwrap(), args[6].parse().unwrap()),
         "dbgdops" => debug_dops(),
         "dbgsyncval" => debug_syncval(),
+        "dbgreset" => debug_reset(),
         "selftest" => match self_test() {
             Ok(()) => println!("self-test ok"),
             Err(e) => {
@@ -154,8 +156,9 @@ pub fn debug_sched(wb: i32, hexs: &str, n_in: usize, room: usize, flush: i32) {
 pub fn debug_dops() {
     use optree::*;
     let env = OpEnv::new();
-    let ops = [DOp::Deflate { flush: 2, inn: usize::MAX, room: 1 }, DOp::Prime(16, 65535)];
-    for (n, r) in [("rs", run_dops::<api::Rs>(6, 8, 15, 8, 0, &ops, &env, false, false, 64, false, None)), ("ng", run_dops::<api::Ng>(6, 8, 15, 8, 0, &ops, &env, false, false, 64, false, None))] {
+    let ops = [DOp::Deflate { flush: 0, inn: usize::MAX, room: drv::AMPLE }, DOp::SetDict(600), DOp::ResetKeep];
+    for (n, r) in [("rs", run_dops::<api::Rs>(1, 8, -9, 1, 0, &ops, &env, false, false, 64, false, None)), ("ng", run_dops::<api::Ng>(1, 8, -9, 1, 0, &ops, &env, false, false, 64, false, None))] {
+        if let Ok(r) = &r { println!("{n} decode: {}", refs::inflate_ref::inflate_raw(&r.total_out[*r.reset_at.last().unwrap_or(&0)..], &refs::inflate_ref::RefOpts::zlib()).tag()); }
         match r {
             Ok(r) => println!("{n}: obs {:?} tail_calls {} ended {} out {}", r.obs.iter().map(|o| (o.ret, o.din, o.dout)).collect::<Vec<_>>(), r.tail_calls, r.tail_ended, engine::hex(&r.total_out)),
             Err(e) => println!("{n}: ERR {e}"),
@@ -194,5 +197,34 @@ pub fn debug_syncval() {
     unsafe {
         go::<Rs>(&z);
         go::<Ng>(&z);
+    }
+}
+
+#[allow(dead_code)]
+pub fn debug_reset() {
+    use api::*;
+    use machine::*;
+    unsafe fn go<Zx: Z>(data: &[u8], env: &MEnv) {
+        let mut a = DMachine::init::<Zx>(1, -9, 1, 0, data, Strm::plain()).unwrap();
+        a.step::<Zx>(MOp::Call { flush: 0, inn: 400, room: drv::AMPLE }, env);
+        a.reset::<Zx>();
+        a.pos = a.given;
+        a.step::<Zx>(MOp::Call { flush: 4, inn: usize::MAX, room: drv::AMPLE }, env);
+        let mut f = DMachine::init::<Zx>(1, -9, 1, 0, data, Strm::plain()).unwrap();
+        f.pos = 400;
+        f.given = 400;
+        f.step::<Zx>(MOp::Call { flush: 4, inn: usize::MAX, room: drv::AMPLE }, env);
+        let da = refs::inflate_ref::inflate_raw(&a.out, &refs::inflate_ref::RefOpts::zlib());
+        let df = refs::inflate_ref::inflate_raw(&f.out, &refs::inflate_ref::RefOpts::zlib());
+        println!("{}: reset-stream out {} bytes -> {}; fresh out {} bytes -> {}; equal {}", Zx::NAME, a.out.len(), da.tag(), f.out.len(), df.tag(), a.out == f.out);
+        println!("  reset: {}\n  fresh: {}", engine::hex(&a.out[..24]), engine::hex(&f.out[..24]));
+        a.end::<Zx>();
+        f.end::<Zx>();
+    }
+    let env = MEnv::new();
+    let data = inputs::text(5, 2500);
+    unsafe {
+        go::<Rs>(&data, &env);
+        go::<Ng>(&data, &env);
     }
 }
